@@ -17,7 +17,7 @@ def ids_after(ops):
     for op in ops:
         for k in ("id", "out"):
             v = op.get(k)
-            if v and v not in out and (k == "out" or op["op"] == "new"):
+            if v and v not in out and (k == "out" or op["op"] in ("new", "from_array")):
                 out.append(v)
     return out
 
